@@ -491,3 +491,31 @@ package connect
 //@     invariant 0 - 1 <= rangeindex && rangeindex < |offered(accept)| && responseCompression == "identity" && requestCompression == "identity"
 //@     invariant forall j int :: {offered(accept)[j]} 0 <= j && j <= rangeindex ==> !supports(availableCompressors, offered(accept)[j])
 //@     decreases |offered(accept)| - rangeindex
+
+// ---------------------------------------------------------------------------
+// codec.go: the module's own codecs decode into the target from scratch
+// ---------------------------------------------------------------------------
+
+//@ func errNotProto(message) res
+//@   tags C01
+//@   ensures res != nil && !Is(res, io.EOF)
+
+//@ func (*protoBinaryCodec).Unmarshal(c, data, message) res
+//@   tags C01
+//@   assigns mval(message)
+//@   ensures res == nil ==> mval(message) == pbdec(seq(data))        // label: target-is-exactly-the-decoded-payload
+//@   ensures res != nil ==> !Is(res, io.EOF)                          // label: decoding-errors-are-not-eof
+
+//@ func (*protoBinaryCodec).Marshal(c, message) (res, err)
+//@   tags C01
+//@   ensures err == nil ==> seq(res) == pbenc(mval(message))          // label: encodes-the-message
+
+//@ func (*protoJSONCodec).Unmarshal(c, binary, message) res
+//@   tags C01
+//@   assigns mval(message)
+//@   ensures res == nil ==> mval(message) == jsondec(seq(binary))     // label: target-is-exactly-the-decoded-payload
+//@   ensures res != nil ==> !Is(res, io.EOF)                          // label: decoding-errors-are-not-eof
+
+//@ func (*protoJSONCodec).Marshal(c, message) (res, err)
+//@   tags C01
+//@   ensures err == nil ==> seq(res) == jsonenc(mval(message))        // label: encodes-the-message
